@@ -158,6 +158,12 @@ class Body:
         if bb is None:
             return "%s:%d" % (self.file, self.line)
         sp = self.blocks[bb]["term"]["span"]
+        if sp["line"] == 1 and sp["file"] != self.file:
+            # synthetic terminator (dummy span): fall back to the block's last statement
+            for st in reversed(self.blocks[bb]["stmts"]):
+                if st.get("line"):
+                    return "%s:%d" % (self.file, st["line"])
+            return "%s:%d" % (self.file, self.line)
         return "%s:%d" % (sp["file"], sp["line"])
 
     # ---------------- CFG ----------------
